@@ -144,11 +144,18 @@ func genUniverseJSON(rng *hx.Rng, tok string, emit func(string, string)) bool {
 	}
 	vg := &serixgen.VGen{Rng: rng, API: e.API}
 	var text []byte
-	var err error
-	if p := hx.Safely(func() {
-		v := vg.Gen(e.Schema)
-		text, err = e.API.JSONEncode(context.Background(), v.Interface(), e.Opts(false)...)
-	}); p != "" || err != nil || len(text) > 4096 {
+	usable := false
+	for try := 0; try < 5 && !usable; try++ {
+		// a generated value the encoder refuses (a nil pointer where none is allowed, a map whose keys are not written as
+		// strings - MapEncode panics on those, which is the encoder's business) is replaced by the next one
+		var err error
+		p := hx.Safely(func() {
+			v := vg.Gen(e.Schema)
+			text, err = e.API.JSONEncode(context.Background(), v.Interface(), e.Opts(false)...)
+		})
+		usable = p == "" && err == nil && len(text) <= 4096
+	}
+	if !usable {
 		return false
 	}
 	emit(fmt.Sprintf("jx %s %d %s", tok, rng.Intn(2), hx.Hex(text)), "universe-json:valid")
